@@ -1404,6 +1404,11 @@ class AnyPayloadDecoder(AbstractSimplePayloadDecoder):
 
             chunk += component
 
+        if not isTagged:
+            # the header went into the chunk, so does the trailer: untagged
+            # ANY holds the complete encoding
+            chunk += EOO_SENTINEL
+
         if isFragment:
             yield chunk
 
